@@ -36,6 +36,7 @@ type EffectUse struct {
 	Name string
 	Args []Expr
 	When Expr // optional condition
+	Post bool // evaluated in the post-state (may mention results)
 }
 
 // FuncContract is the contract of one function (in-repo, verified) or of an
@@ -222,6 +223,16 @@ func (cs *Contracts) ReadFile(path, pkgPath string) error {
 				return fail("%v", err)
 			}
 			cs.Effects[ed.Name] = ed
+		case "posteffect":
+			if cur == nil {
+				return fail("posteffect outside a contract")
+			}
+			eu, err := parseEffectUse(rest)
+			if err != nil {
+				return fail("%v", err)
+			}
+			eu.Post = true
+			cur.EmitsEff = append(cur.EmitsEff, eu)
 		case "effectdecl":
 			ed, err := parseEffectDecl(rest)
 			if err != nil {
